@@ -69,7 +69,9 @@ def tier_timeout(tier):
 
 
 def replay_once(h, path):
-    rc, log, _ = core.run([h.bin, "--replay-in", path, "--replay-out", os.devnull], timeout=1800)
+    rc, log, _ = core.run([h.bin, "--replay-in", path, "--replay-out", os.devnull], env=dict(h.env), timeout=1800)
+    if rc == 3:
+        raise InfraError(f"replay of {path} with {h.name} reported a harness error:\n{log[-2000:]}")
     return rc, log
 
 
